@@ -26,7 +26,9 @@ MODE_OF = {"C08": "cols", "C09": "scale", "C10": "rows"}
 # C09: scales at which only the UPGrad reg_eps ladder is run.  With c_i in {1, 2^10, 2^20} and |g_i| of order 1..5,
 # 2^-20 puts the default norm_eps = 1e-4 between the rows scaled by 1 (1e-6) and by 2^10 (1e-3); 2^-10 (a regular
 # scale) does the same for norm_eps = 1e-2, 2^-30 for 1e-6 (and for 1e-4 between 2^10 and 2^20).
-LADDER_SCALES = {"quick": [-20], "thorough": [-20, -30, -17]}
+# 2^-13 = 1.2e-4 puts sigma_max of the rows scaled by 1 into the decade ABOVE the documented default norm_eps = 1e-4 (the
+# rows scaled by 2^10 far above it); 2^-17 into the decade below it.
+LADDER_SCALES = {"quick": [-20, -13], "thorough": [-20, -30, -17, -13]}
 
 
 def make_jobs(pid: str, scn: list[dict], scales: list[int], seed: int, chunk: int,
